@@ -212,4 +212,22 @@ SEGMENTS = {
         file="src/dev/write.rs", start="FULL",
         rewrites=[(r"self\.k_call_write\(", "self.k_call_write_q(")],
     ),
+    # ---- sizing of the in-ram tables when a device is created
+    "N0": dict(
+        file="src/dev/mod.rs", fn="new", start=r"let h = &header;", end=r"let dev = Qcow2Dev \{",
+        sig="pub(crate) fn seg_n0(&self, header: Qcow2Header, params: &Qcow2DevParams) -> Qcow2Result<()>",
+        post=EPI + "        self.out.set([l1_size as u64, rt_size as u64, l1_entries as u64, l2_cache_cnt as u64, rb_cache_cnt as u64, 0]);\n        core::mem::forget(header);\n        Ok(())",
+    ),
+    # ---- per-cluster dispatch of reads and writes on the mapping kind
+    "DR": dict(
+        file="src/dev/read.rs", fn="do_read", start="FULL",
+        sig="pub(crate) fn seg_dr(&self, entry: L2Entry, offset: u64, buf: KBuf) -> Qcow2Result<usize>",
+        await_calls=["do_read_data_file", "do_read_zero", "do_read_backing", "do_read_compressed"],
+        rewrites=[(r"self\.k_do_read_compressed\(", "self.k_do_read_compressed_kb(")],
+    ),
+    "DW": dict(
+        file="src/dev/write.rs", fn="do_write", start="FULL",
+        sig="pub(crate) fn seg_dw(&self, l2_e: L2Entry, off: u64, buf: KBuf) -> Qcow2Result<()>",
+        await_calls=["do_write_data_file", "do_write_cow"],
+    ),
 }
